@@ -9,6 +9,8 @@ FLAV = {
     "1": "a multi-step sequence of operations, a particular prior state of the document, or two cooperating sites that each look fine alone",
     "2": "an unusual but legitimate input or boundary value (of the kind a PowerPoint-authored or third-party file, or an unusual argument, would contain)",
     "3": "a stale cache or lazily computed value, an error path (a call rejected midway, an exception handler that swallows or mistranslates), or an ordering dependence between two calls",
+    "5": "a change inside a SHARED helper or base class (pptx/util.py, oxml/xmlchemy.py, oxml/__init__.py, opc/package.py, shapes/base.py, shared.py, oxml/ns.py and the like) that stays correct for almost every caller and goes wrong only through one specific caller or argument combination relevant to this property",
+    "6": "a numeric edge: rounding mode, integer vs true division, an off-by-one at a range boundary, a unit conversion, a sign, or an accumulated rounding error that only particular magnitudes expose",
     "4": "a document feature that python-pptx itself never writes but real-world files contain (an element, attribute, namespace prefix or part arrangement), or an interaction between two features that are each fine alone",
 }
 TEMPLATE = '''You are helping to test a verification tool by writing a realistic BUG for the open-source library python-pptx. Work ONLY inside your own scratch git worktree of the library: {wt} (a detached checkout; the package source is {wt}/src/pptx). Do NOT read, list or use anything under /verif or /root, and do not touch /repo. Python: run everything as `cd {wt} && PYTHONPATH={wt}/src PYTHONHASHSEED=0 /venv/bin/python ...`.
@@ -30,7 +32,21 @@ Deliver, in the directory {wt}/_seed/ (create it):
 2. `demo.py` — a small self-contained program that exits 0 on the UNCHANGED library and exits non-zero (assertion failure with a clear message) WITH your change, demonstrating the property violation through the public API (it may build packages/XML by hand with zipfile/lxml where the property is about irregular input). It must take the library from PYTHONPATH (do not hard-code paths to src), write scratch files only under tempfile.mkdtemp() and remove them, and run in under 60 s.
 3. `meta.json` — {{"property": "{pid}", "summary": "<what the change does, 2-3 sentences>", "needs_to_manifest": "<the specific input / sequence / state needed>", "files_changed": [...], "tests_before": "566 passed, 46 errors", "tests_after": "<what you measured>"}}.
 
-Verify all of it yourself before answering: (a) with the change applied: pytest line is `566 passed, 46 errors` and demo.py fails; (b) `git -C {wt} checkout -- src` then demo.py passes, then re-apply your patch with `git -C {wt} apply _seed/patch.diff` so that the worktree is left WITH the change applied. Final answer: 5-10 lines: what you changed, why it breaks the property, what is needed to manifest, and the measured results of (a) and (b).'''
+Never use `git stash` (the stash is shared between all worktrees of the repository and other people are working in theirs): to get back to the clean tree use `git -C {wt} diff -- src > /tmp/my.diff; git -C {wt} checkout -- src`, and `git -C {wt} apply` to re-apply. Verify all of it yourself before answering: (a) with the change applied: pytest line is `566 passed, 46 errors` and demo.py fails; (b) `git -C {wt} checkout -- src` then demo.py passes, then re-apply your patch with `git -C {wt} apply _seed/patch.diff` so that the worktree is left WITH the change applied. Final answer: 5-10 lines: what you changed, why it breaks the property, what is needed to manifest, and the measured results of (a) and (b).'''
+BENIGN = '''You are helping to test a verification tool for the open-source library python-pptx by writing a HARMLESS REFACTORING of it. Work ONLY inside your own scratch git worktree of the library: {wt} (a detached checkout; the package source is {wt}/src/pptx). Do NOT read, list or use anything under /verif or /root, and do not touch /repo. Python: run everything as `cd {wt} && PYTHONPATH={wt}/src PYTHONHASHSEED=0 /venv/bin/python ...`.
+
+Here is a semantic property that python-pptx satisfies (this record is all you are given):
+
+{prop}
+
+YOUR JOB: make a realistic, behaviour-PRESERVING change to the code this property is about (the files and mechanisms named under "anchors"): the kind of clean-up a maintainer commits routinely. Examples: rename a private helper or local variables, extract or inline a small function, replace a loop by a comprehension or vice versa, reorder independent statements, replace an expression by an equivalent one (e.g. `%` formatting by an f-string producing the same text, `a // b` left alone but `if not x: return` restructured), add type annotations, move a constant to module level, add a defensive `assert` that can never fire, change an error MESSAGE (not the exception class). Touch 2-4 different places in the anchored code, 10-40 changed lines in total, so that the source text differs substantially while the observable behaviour (return values, XML produced, exceptions raised and their classes, files written) is IDENTICAL for every possible input, including unusual ones. Do not change public names or signatures, tests or docs. The pinned test suite must still give `566 passed, 46 errors` (`cd {wt} && PYTHONPATH={wt}/src /venv/bin/python -m pytest -q -p no:cacheprovider --timeout=900 --continue-on-collection-errors 2>&1 | tail -1`).
+
+Deliver, in the directory {wt}/_seed/ (create it):
+1. `patch.diff` — output of `git -C {wt} diff -- src` (must apply cleanly to a clean checkout with `git apply`).
+2. `demo.py` — a small program exercising the refactored code through the public API on several inputs (ordinary and unusual) and printing a digest of the results; it must print EXACTLY the same output with and without your change (run both and compare) and exit 0.
+3. `meta.json` — {{"property": "{pid}", "benign": true, "summary": "<what was refactored, 2-3 sentences>", "why_equivalent": "<one sentence per touched site arguing equivalence for all inputs>", "files_changed": [...], "tests_after": "<what you measured>"}}.
+
+Leave the worktree WITH the change applied. Final answer: 5-10 lines describing the refactoring and your measurements.'''
 for name in sys.argv[1:]:
     pid, k = name.split("-")
     wt = "/tmp/seed/" + name
@@ -46,6 +62,11 @@ for name in sys.argv[1:]:
     avoid = ""
     if prev:
         avoid = "\n* Other people already wrote changes at these sites; choose a DIFFERENT mechanism and site:\n" + "\n".join("    - " + x for x in prev)
+    if k.startswith("b"):
+        txt = BENIGN.format(wt=wt, pid=pid, prop=json.dumps({q: p[q] for q in ("id", "title", "statement", "quantifier", "why_tests_cant", "anchors")}, indent=1))
+        open(os.path.join(wt, "_task.txt"), "w").write(txt)
+        print(name, "->", wt)
+        continue
     txt = TEMPLATE.format(wt=wt, pid=pid, flavour=FLAV[k[-1]] if k[-1] in FLAV else FLAV["1"], avoid=avoid,
                           prop=json.dumps({q: p[q] for q in ("id", "title", "statement", "quantifier", "why_tests_cant", "anchors")}, indent=1))
     open(os.path.join(wt, "_task.txt"), "w").write(txt)
